@@ -4,6 +4,7 @@
 mod util;
 mod c_inflights;
 mod c_quorum;
+mod c_memstorage;
 mod c_raftlog;
 
 fn main() {
@@ -17,6 +18,7 @@ fn main() {
     match args[1].as_str() {
         "inflights" => c_inflights::main(rest),
         "quorum" => c_quorum::main(rest),
+        "memstorage" => c_memstorage::main(rest),
         "raftlog" => c_raftlog::main(rest),
         other => {
             eprintln!("unknown component {}", other);
